@@ -5,10 +5,10 @@ number-carrying site, quantum number 1 when occupied), "p2"/"p3" (harmonic mode 
 "b": [] is a dummy node.  Degrees of freedom are numbered 0,1,... in pre-order; node ids are the pre-order
 index (= ttns.node_idx).  Hamiltonian terms: [symbol, [dofs], factor].
 """
+from renormalizer import Op, BasisHalfSpin, BasisSimpleElectron, BasisSHO   # before numpy (RENO_NUM_THREADS)
 import numpy as np
 import scipy.linalg
 
-from renormalizer import Op, BasisHalfSpin, BasisSimpleElectron, BasisSHO
 from renormalizer.model.basis import BasisDummy
 from renormalizer.tn import BasisTree, TTNO, TTNS, TreeNodeBasis
 from renormalizer.utils import EvolveConfig, EvolveMethod, CompressConfig, CompressCriteria
